@@ -17,10 +17,11 @@ PmQ == {"shared", "distinct"}
 PmT == {"shared", "distinct", "two", "aliased"}
 CfgQ == {"bb_d4_p2"}
 CfgT == {"bb_d4_p2", "kb_d4_p2"}
-FaultsAll == {"none", "opened_value", "commit_phase_commit", "final_poly", "query_opened_row", "query_sibling", "query_merkle", "pow_witness", "input_commitment", "log_arity"}
+FaultsAll == {"none", "skip_height", "opened_value", "commit_phase_commit", "final_poly", "query_opened_row", "query_sibling", "query_merkle", "pow_witness", "input_commitment", "log_arity"}
 Widths == <<2, 1, 3>>
 FaultJson(k) ==
     CASE k = "none" -> [kind |-> "none"]
+      [] k = "skip_height" -> [kind |-> k]
       [] k = "opened_value" -> [kind |-> k, batch |-> Len(batches) - 1, mat |-> 0, point |-> 0, col |-> 0]
       [] k = "commit_phase_commit" -> [kind |-> k, round |-> 0, word |-> 1]
       [] k = "final_poly" -> [kind |-> k, coeff |-> 0]
@@ -36,9 +37,10 @@ Case(cfg, q, pw, pm, k, cap) ==
      batches |-> [j \in 1..Len(batches) |-> [mats |-> [i \in 1..Len(batches[j]) |-> [log_h |-> batches[j][i], w |-> Widths[i]]], points |-> pm]],
      fault |-> FaultJson(k),
      model |-> [arities |-> arities, refused |-> Refused, same_index_bits |-> (shiftC = shiftN), fold_phases |-> Len(arities),
-               roots_input |-> RootsInput(cap), roots_commit |-> RootsCommit(cap)]]
+               roots_input |-> RootsInput(cap), roots_commit |-> RootsCommit(cap),
+               withheld |-> Withheld, dishonest_arities |-> DishonestSchedule, stepped_over |-> SteppedOver]]
 \* faults that touch a commitment or a Merkle opening are replayed for every cap height; the others with the root as cap
-CapFaults == {"none", "commit_phase_commit", "query_merkle", "input_commitment", "query_opened_row", "query_sibling"}
+CapFaults == {"none", "skip_height", "commit_phase_commit", "query_merkle", "input_commitment", "query_opened_row", "query_sibling"}
 Emit == phase = "done" =>
     \A cfg \in Cfgs : \A q \in Queries : \A pw \in PowBits : \A pm \in PointModes : \A k \in Faults : \A cap \in Caps :
         (cap = 0 \/ (k \in CapFaults /\ pm = "shared" /\ pw = 0)) => PrintT(<<"REPLAY", ToJson(Case(cfg, q, pw, pm, k, cap))>>)
